@@ -50,11 +50,32 @@ def edge_points(pe, lay, file_len):
     return sorted(rv), sorted(fo)
 
 
+# `min_size_of` values beyond any buffer: 2^32, 2^63, 2^64 - 1 (usize::MAX) and their neighbours
+BIG_MINS = (1 << 32, (1 << 32) + 1, 1 << 63, (1 << 63) - 1, (1 << 64) - 1, (1 << 64) - 2)
+
+
+def big_offsets(rng, pe, lay, k):
+    """`f2r` with file offsets >= 2^32 (the argument is a usize; NOT an RVA: the protocol lint leaves it alone)"""
+    xs = [0, 1, lay["size_of_headers"] - 1, lay["size_of_headers"]]
+    for s in pe.sections:
+        xs += [s.prd, s.prd + 1, s.prd + max(s.rs, 1) - 1, s.prd + s.rs]
+    xs = sorted(set(x & U32 for x in xs if x >= 0))
+    out = []
+    for x in xs:
+        out.append("f2r %s 0x%x" % (k, (1 << 32) + x))
+    for x in rng.sample(xs, min(3, len(xs))):
+        out.append("f2r %s 0x%x" % (k, (rng.choice([2, 0x7FFFFFFF, 0xFFFFFFFF]) << 32) + x))
+        out.append("f2r %s 0x%x" % (k, (1 << 63) + x))
+    out.append("f2r %s 0x%x" % (k, (1 << 64) - 1))
+    return out
+
+
 def gen_c04(rng, tier):
     cases = []
     nimg = 40 if tier == "quick" else 1500
     for n in range(nimg):
         pe = simple_pe(rng)
+        bss = make_bss(rng, pe) if rng.random() < 0.25 else None
         data = pe.build()
         if rng.random() < 0.55:
             adversarial_sections(rng, pe, len(data))
@@ -73,22 +94,52 @@ def gen_c04(rng, tier):
                 case.append("r2f %s 0x%x" % (k, rva))
                 case.append("slice %s 0x%x 1 1" % (k, rva))
                 case.append("slice %s 0x%x 0 %d" % (k, rva, rng.choice([1, 2, 4, 8, 16])))
+                case.append("slice_bytes %s 0x%x" % (k, rva & U32))
+                if k == kf:
+                    case.append("read_bytes %s 0x%x" % (k, (pe.image_base + rva) & ((1 << pe.bits) - 1)))
             for fo in offs:
                 case.append("f2r %s 0x%x" % (k, fo))
+            # file offsets that do not fit 32 bits (`file_offset as Rva`, pe.rs:136 / 152, must never be reached
+            # with a truncated offset): 2^32 + x, 2^63 + x, 2^64 - 1 with x inside the headers and inside raw data
+            case += big_offsets(rng, pe, lay, k)
             # (min_size, align) requests around the remaining length of each section
             for s in pe.sections:
                 for so in (0, 1, s.rs // 2, max(s.rs, 1) - 1, s.rs, s.rs + 1, s.vs):
                     rem = s.rs - so
-                    for mn in (rem - 1, rem, rem + 1, 0, U32, 1 << 40):
+                    for mn in (rem - 1, rem, rem + 1, 0, U32, 1 << 40) + (rng.choice(BIG_MINS),):
                         if mn >= 0:
                             case.append("slice %s 0x%x %d %d" % (k, (s.va + so) & U32, mn, rng.choice([1, 1, 2, 4, 8])))
+                if k == kf:
+                    for mn in BIG_MINS:
+                        case.append("read %s 0x%x %d 1" % (k, (pe.image_base + s.va) & ((1 << pe.bits) - 1), mn))
             for i in range(len(pe.sections) + 1):
                 case.append("secbytes %s %d" % (k, i))
-        # the same table seen as a mapped view (get_section_bytes on views)
+        # the same table seen as a mapped view (get_section_bytes on views; the header-arithmetic conversions
+        # `rva_to_file_offset` / `file_offset_to_rva` are offered by views as well)
         kv = "v%d" % pe.bits
         for i in range(len(pe.sections)):
             case.append("secbytes %s %d" % (kv, i))
+        for rva in rvas:
+            case.append("r2f %s 0x%x" % (kv, rva))
+        for fo in offs:
+            case.append("f2r %s 0x%x" % (kv, fo))
+        case += big_offsets(rng, pe, lay, kv)[:4]
+        for i in range(len(pe.sections)):
+            case.append("secbytes wv %d" % i)
         cases.append(case)
+        if bss is not None or rng.random() < 0.15:
+            # the table over a MAPPED buffer: a view answers with the virtual extent of every section, zero bytes for
+            # the part that has no raw data
+            view = load_view(pe, data)
+            if view is not None:
+                case = [img_line(rng, view), "from_bytes " + kv]
+                for k in (kv, "wv"):
+                    for i in range(len(pe.sections) + 1):
+                        case.append("secbytes %s %d" % (k, i))
+                    for s in pe.sections:
+                        case.append("slice_bytes %s 0x%x" % (k, s.va & U32))
+                        case.append("slice %s 0x%x %d 1" % (k, s.va & U32, s.vs))
+                cases.append(case)
     # public API argument outside its (undocumented) domain: alignment that is not a power of two
     pe = simple_pe(rng, nsec=2)
     data = pe.build()
@@ -151,12 +202,62 @@ def gen_c04_firstmatch(rng, tier):
             for rva in rvas:
                 case.append("r2f %s 0x%x" % (k, rva))
                 case.append("slice %s 0x%x 1 1" % (k, rva))
+                case.append("slice_bytes %s 0x%x" % (k, rva & U32))
                 if k == kf:
                     case.append("read %s 0x%x 1 1" % (k, pe.image_base + rva))
+                    case.append("read_bytes %s 0x%x" % (k, pe.image_base + rva))
             for fo in offs:
                 case.append("f2r %s 0x%x" % (k, fo))
             for i in range(len(pe.sections) + 1):
                 case.append("secbytes %s %d" % (k, i))
+        cases.append(case)
+    return cases
+
+
+def gen_c04_manysec(rng, tier):
+    """Section tables at the limit `validate_headers` accepts (96): 95, 96 sections resolved through every
+    entry — the first, the last, the last but one and a sample in between — and 97 (rejected).  Small
+    sections (FileAlignment 0x20) keep the image a few KiB."""
+    cases = []
+    combos = [(b, n) for b in (32, 64) for n in (95, 96, 97)]
+    for bits, nsec in combos:
+        pe = PE(bits)
+        fa, sa = 0x20, rng.choice([0x20, 0x40, 0x1000])
+        pe.file_align, pe.section_align = fa, sa
+        pe.e_lfanew = rng.choice([0x40, 0x48, 0x80])
+        hdr_end = pe.e_lfanew + 24 + pe.opt_size() + 8 * 16 + 40 * nsec
+        prd = (hdr_end + fa - 1) // fa * fa
+        va = max(sa, (prd + sa - 1) // sa * sa)
+        for i in range(nsec):
+            rs = rng.choice([0, fa, fa, 2 * fa])
+            vs = rng.choice([rs, rs, max(0, rs - 3), rs + 5, 0])
+            pe.sections.append(Section(name=b".s%d" % i, va=va, vs=vs, prd=prd if rs else 0, rs=rs, data=rand_bytes(rng, rs)))
+            prd += rs
+            va += (max(vs, rs, 1) + sa - 1) // sa * sa
+        if rng.random() < 0.5 and nsec >= 2:
+            # the LAST entry shadowed by the first (first-match rule over the whole table)
+            pe.sections[-1].va = pe.sections[0].va
+        data = pe.build()
+        lay = pe.layout
+        kf, kv = "f%d" % bits, "v%d" % bits
+        case = [img_line(rng, data), "from_bytes " + kf, "from_bytes wf", "from_bytes " + kv]
+        pick = sorted(set([0, 1, nsec - 3, nsec - 2, nsec - 1] + rng.sample(range(nsec), 6)))
+        for k in (kf, "wf"):
+            for i in pick:
+                s = pe.sections[i]
+                for e in (0, 1, max(s.rs, 1) - 1, s.rs, s.vs, max(s.vs, s.rs)):
+                    rva = (s.va + e) & U32
+                    case.append("r2f %s 0x%x" % (k, rva))
+                    case.append("slice %s 0x%x %d 1" % (k, rva, rng.choice([0, 1, fa])))
+                    case.append("slice_bytes %s 0x%x" % (k, rva & U32))
+                for e in (0, max(s.rs, 1) - 1, s.rs):
+                    case.append("f2r %s 0x%x" % (k, (s.prd + e) & U32))
+                case.append("secbytes %s %d" % (k, i))
+                case.append("byrva %s 0x%x" % (k, s.va))
+                case.append("byname %s %s" % (k, s.name.hex()))
+            for i in (nsec - 1, nsec, nsec + 1):
+                case.append("secbytes %s %d" % (k, i))
+        case += ["hdr " + kf, "hdrw wf", "hdrw2 wf", "hdrw2 " + kf]
         cases.append(case)
     return cases
 
@@ -203,10 +304,56 @@ def header_variants(rng, tier):
     return out
 
 
-def gen_c07(rng, tier):
+def big_optional_cases(rng, sohs=(0x7FFC, 0x8000, 0x8004, 0xFFFC), both_bits=True):
+    """ACCEPTED images whose SizeOfOptionalHeader is large (around the i16 sign bit and at the u16 maximum that keeps
+    the table 4-aligned): the section table lies at e_lfanew + 24 + SizeOfOptionalHeader, far behind the optional
+    header; the file is long enough for it, SizeOfHeaders stays small.  Every accessor that locates the table follows."""
     cases = []
+    for soh_opt in sohs:
+        for bits in ((32, 64) if both_bits else (rng.choice([32, 64]),)):
+            pe = PE(bits)
+            pe.e_lfanew = rng.choice([0x40, 0x80, 0xC8])
+            pe.file_align, pe.section_align = 0x200, 0x1000
+            pe.size_of_optional = soh_opt
+            nsec = rng.choice([1, 2, 3])
+            tab_end = pe.e_lfanew + 24 + soh_opt + 40 * nsec
+            prd = (tab_end + 0x1FF) // 0x200 * 0x200
+            va = (prd + 0xFFF) // 0x1000 * 0x1000
+            names = rng.sample([b".text", b".rdata", b".data", b"12345678", b"a\0b", b".rsrc"], nsec)
+            for i in range(nsec):
+                rs = rng.choice([0x40, 0x200])
+                pe.sections.append(Section(name=names[i], va=va, vs=rs + rng.choice([0, 5, 0x100]), prd=prd, rs=rs, data=rand_bytes(rng, rs)))
+                prd += 0x200
+                va += 0x1000
+            pe.size_of_headers = rng.choice([0x200, 0x400, pe.e_lfanew + 24 + pe.opt_size() + 8 * 16])
+            pe.base_of_code, pe.size_of_code = pe.sections[0].va, pe.sections[0].vs
+            data = pe.build()
+            kf, kv = "f%d" % bits, "v%d" % bits
+            case = [img_line(rng, data, rng.choice([0, 4, 8, 12]), "e")]
+            for k in ("f32", "f64", "v32", "v64", "wf", "wv"):
+                case.append("from_bytes " + k)
+            for k in (kf, "wf", kv, "wv"):
+                case += ["hdr " + k, "hdrw " + k, "hdrw2 " + k]
+                for i in range(nsec + 1):
+                    case.append("secbytes %s %d" % (k, i))
+                for sct in pe.sections:
+                    case.append("byname %s %s" % (k, sct.name.hex()))
+                    for d in (-1, 0, 1):
+                        case.append("byrva %s 0x%x" % (k, (sct.va + d) & U32))
+                        case.append("byrva %s 0x%x" % (k, (sct.va + max(sct.vs, sct.rs) + d) & U32))
+                case.append("byname %s %s" % (k, b".none".hex()))
+            for sct in pe.sections:
+                for k in (kf, "wf"):
+                    case += ["r2f %s 0x%x" % (k, sct.va + 1), "slice %s 0x%x 1 1" % (k, sct.va + 1), "f2r %s 0x%x" % (k, sct.prd + 1)]
+            cases.append(case)
+    return cases
+
+
+def gen_c07(rng, tier):
+    cases = big_optional_cases(rng, sohs=(rng.choice([0x7FFC, 0x8000, 0x8004, 0xFFFC]),), both_bits=False)
     for pe, data in header_variants(rng, tier):
         al = rng.choice([0, 4, 8, 12, 0, 4, 8, 12, 1, 2, 6])
+        lay = pe.layout
         case = [img_line(rng, data, al)]
         for k in ("f32", "f64", "v32", "v64", "wf", "wv"):
             case.append("from_bytes " + k)
@@ -214,6 +361,25 @@ def gen_c07(rng, tier):
         for k in ks:
             case.append("hdr " + k)
             case.append("hdrw " + k)
+            case.append("hdrw2 " + k)
+        # `image_base()` of a relocated view is the overridden base, every other accessor is unaffected
+        M = (1 << pe.bits) - 1
+        for b in rng.sample([0, 1, 0x1000, 0x10000, 0x7FFE0000, 0xFFFFF000, 0xFFFFFFFF, 0x100000000 & M, 0x7FF700000000 & M, M - 0xFFF, M], 3):
+            case.append("hdr v%d@0x%x" % (pe.bits, b))
+            case.append("hdrw2 v%d@0x%x" % (pe.bits, b))
+        # `slice_bytes` through the specific constructor and through the wrapper on the same image (file and view kind)
+        sb = set([0, 1, 0x3C, lay["size_of_headers"] - 1 & U32, lay["size_of_headers"] & U32, lay["size_of_image"] - 1 & U32, lay["size_of_image"] & U32, U32])
+        for s in pe.sections[:2]:
+            for e in (0, 1, s.rs - 1, s.rs, s.vs):
+                sb.add((s.va + e) & U32)
+        for r in sorted(sb):
+            for k in ks:
+                case.append("slice_bytes %s 0x%x" % (k, r & U32))
+            case.append("read_bytes %s 0x%x" % (ks[0], (pe.image_base + r) & M))
+            # (min, align) with min != align through the specific constructors and both arms of `Wrap::slice`
+            mn_, al_ = rng.choice(MIN_ALIGN)
+            for k in ks:
+                case.append("slice %s 0x%x %d %d" % (k, r & U32, mn_, al_))
         k = ks[0]
         names = set([b".text", b".rsrc", b"12345678", b"123456789", b"", b"a", b"a\0b", b".text\0\0\0", b".tex"])
         for s in pe.sections[:4]:
@@ -250,7 +416,8 @@ def gen_c07_corpus(rng, tier):
         for al, fl in ((0, "e"), (4, "s"), (8, "e"), (12, "e")) if len(data) < 4096 or tier != "quick" else ((0, "e"), (4, "e")):
             case = [img_line(rng, data, al, fl)]
             for k in ("f32", "f64", "v32", "v64", "wf", "wv"):
-                case += ["from_bytes " + k, "hdr " + k, "hdrw " + k]
+                case += ["from_bytes " + k, "hdr " + k, "hdrw " + k, "hdrw2 " + k]
+            case += ["hdr v32@0x10000", "hdr v64@0xffffffffffff0000", "hdrw2 v32@0xffffffff", "hdrw2 v64@0x1"]
             cases.append(case)
     # overlays / truncations that leave 1..3 non-zero bytes after the last whole dword (the checksum's tail)
     files = corpus_files()
@@ -262,7 +429,7 @@ def gen_c07_corpus(rng, tier):
             body = data[:len(data) & ~3]
             case = [img_line(rng, body + tail, rng.choice([0, 4, 8]), "e")]
             for k in ("f32", "f64", "wf"):
-                case += ["hdr " + k, "hdrw " + k]
+                case += ["hdr " + k, "hdrw " + k, "hdrw2 " + k]
             cases.append(case)
     return cases
 
@@ -315,6 +482,36 @@ def plant(rng, pe):
         s.data = bytes(d[:n])
 
 
+def _elems_at(pe, r, w, cnt=4):
+    """(the first elements of width w planted at rva r, number of stored bytes from r to the end of its section)"""
+    for s in pe.sections:
+        if s.data and s.va <= r < s.va + len(s.data):
+            o = r - s.va
+            d = s.data[o:o + w * cnt]
+            return [int.from_bytes(d[i:i + w], "little") for i in range(0, len(d) - w + 1, w)], max(0, min(s.rs, len(s.data)) - o)
+    return [], 0
+
+
+def slice_f_preds(rng, pe, r, w, k=2):
+    """callables for `derva_slice_f` / `deref_slice_f` at rva r, element width w: the stateful `count:<n>` for n in
+    0 .. window/w + 2 (window = the stored bytes from r on: the last values make the scan run off the end) and the
+    stateless `ge:<x>` with x around the values planted there"""
+    vals, window = _elems_at(pe, r, w)
+    nmax = window // w
+    counts = sorted(set([0, 1, 2, 3, max(nmax - 1, 0), nmax, nmax + 1, nmax + 2]))
+    xs = set([0, 1, (1 << (8 * w)) - 1, 1 << (8 * w - 1)])
+    for v in vals:
+        xs.update([v, v + 1, max(v - 1, 0)])
+    if vals:
+        xs.add(max(vals) + 1)
+    xs = sorted(x for x in xs if x < (1 << 64))
+    return ["count:%d" % n for n in rng.sample(counts, min(k, len(counts)))] + ["ge:0x%x" % x for x in rng.sample(xs, min(k, len(xs)))]
+
+
+# (min_size, align) with min != align: an implementation that confuses the two arguments answers differently
+MIN_ALIGN = [(8, 1), (1, 8), (3, 2), (2, 4), (16, 2), (4, 1), (1, 4), (0, 8), (5, 4), (32, 16)]
+
+
 def gen_c05(rng, tier):
     cases = []
     nimg = 40 if tier == "quick" else 1500
@@ -342,7 +539,9 @@ def gen_c05(rng, tier):
                 base = rng.choice([0, 1, 0x1000, 0xFFFFF000, 0xFFFFFFFF, (1 << 64) - 0x2000, (1 << 64) - 1, 0x7FF000000000]) & ((1 << pe.bits) - 1)
                 k = "%s@0x%x" % (k, base)
             kw = ("wf" if mode == "file" else "wv")
-            case = [img_line(rng, buf), "from_bytes " + k.split("@")[0]]
+            case = [img_line(rng, buf), "from_bytes " + k.split("@")[0], "hdr " + k]
+            if mode == "view":
+                case += ["f2r %s 0x%x" % (k, (1 << 32) + lay["size_of_headers"] - 1), "f2r %s 0x%x" % (k, (1 << 64) - 1)]
             rvas = set([0, 1, soi - 1, soi, soi + 1, lay["size_of_headers"], lay["size_of_headers"] - 1, U32])
             for s in pe.sections:
                 for e in (0, 1, 2, 3, 4, 8, s.rs - 8, s.rs - 4, s.rs - 2, s.rs - 1, s.rs, s.vs - 1, s.vs, s.vs + 1):
@@ -359,6 +558,16 @@ def gen_c05(rng, tier):
                 mn = rng.choice([0, 1, 4, 16])
                 case.append("slice %s 0x%x %d %d" % (k, r, mn, al))
                 case.append("read %s 0x%x %d %d" % (k, va, mn, al))
+                # the shorthands (`slice(rva, 0, 1)` / `read(va, 0, 1)`), again as a slice/read pair
+                case.append("slice_bytes %s 0x%x" % (k, r & U32))
+                case.append("read_bytes %s 0x%x" % (k, va))
+                if rng.random() < 0.35:
+                    mn = rng.choice(BIG_MINS)
+                    al = rng.choice([1, 1, 2, 8])
+                    case.append("slice %s 0x%x %d %d" % (k, r, mn, al))
+                    case.append("read %s 0x%x %d %d" % (k, va, mn, al))
+                # header arithmetic on whatever kind of object this is (views offer it too)
+                case.append("r2f %s 0x%x" % (k, r)); case.append("f2r %s 0x%x" % (k, r))
                 t = rng.choice(types)
                 case.append("derva %s %s 0x%x" % (k, t, r)); case.append("deref %s %s 0x%x" % (k, t, va))
                 case.append("derva_copy %s %s 0x%x" % (k, t, r)); case.append("deref_copy %s %s 0x%x" % (k, t, va))
@@ -369,6 +578,17 @@ def gen_c05(rng, tier):
                 se = rng.choice([0, 0, 0, 1, 0xFF])
                 case.append("derva_slice_s %s %s 0x%x %d" % (k, t, r, se)); case.append("deref_slice_s %s %s 0x%x %d" % (k, t, va, se))
                 case.append("derva_cstr %s 0x%x" % (k, r)); case.append("deref_cstr %s 0x%x" % (k, va))
+                # predicate-terminated arrays: a stateless predicate on the element (`ge:<x>`: *e >= x; 0 = stop at once,
+                # 2^64-1 on a narrow type = hardly ever) and a STATEFUL FnMut (`count:<n>`: true on its n-th call)
+                w_ = tsize[t]
+                prs = slice_f_preds(rng, pe, r, w_, 1)
+                prs.append(rng.choice(["ge:0xffffffffffffffff", "count:7", "count:64", "count:0x%x" % rng.choice([1 << 20, 1 << 32, (1 << 63), (1 << 64) - 1])]))
+                for pr in prs:
+                    case.append("derva_slice_f %s %s 0x%x %s" % (k, t, r & U32, pr)); case.append("deref_slice_f %s %s 0x%x %s" % (k, t, va, pr))
+                if rng.random() < 0.3:
+                    st_ = rng.choice(["dd", "sh", "b16"])
+                    n_ = rng.choice([0, 1, 2, 3, 13])
+                    case.append("derva_slice_f %s %s 0x%x count:%d" % (k, st_, r & U32, n_)); case.append("deref_slice_f %s %s 0x%x count:%d" % (k, st_, va, n_))
                 # element types whose size exceeds their alignment (data directory 8/4, section header 40/4, [u8;16] 16/1)
                 st = rng.choice(["dd", "sh", "b16"])
                 case.append("derva %s %s 0x%x" % (k, st, r)); case.append("deref %s %s 0x%x" % (k, st, va))
@@ -382,11 +602,32 @@ def gen_c05(rng, tier):
                 if rng.random() < 0.15:
                     case.append("derva %s %s 0x%x" % (kw, t, r)); case.append("derva_cstr %s 0x%x" % (kw, r))
                     case.append("derva_slice_s %s %s 0x%x 0" % (kw, t, r)); case.append("derva_copy %s %s 0x%x" % (kw, t, r))
+                    case.append("derva_slice_f %s %s 0x%x %s" % (kw, t, r & U32, pr)); case.append("slice_bytes %s 0x%x" % (kw, r & U32))
+                if "@" not in k and rng.random() < 0.5:
+                    # the same (min, align) request, min != align, through the specific constructor and through the wrapper
+                    # (PE32 and PE32+ arm of `Wrap::slice`); the VA twin exists on the specific API only
+                    for mn_, al_ in rng.sample(MIN_ALIGN, 3):
+                        case.append("slice %s 0x%x %d %d" % (k, r & U32, mn_, al_))
+                        case.append("read %s 0x%x %d %d" % (k, va, mn_, al_))
+                        case.append("slice %s 0x%x %d %d" % (kw, r & U32, mn_, al_))
             # va edge cases
             for va in (0, 1, base, (base - 1) & M, (base + soi) & M, (base + soi + 1) & M, M):
                 case.append("v2r %s 0x%x" % (k, va)); case.append("read %s 0x%x 0 1" % (k, va)); case.append("deref_copy %s u32 0x%x" % (k, va))
             cases.append(case)
     return cases
+
+
+def make_bss(rng, pe, keep=()):
+    """turn one section into a bss-style one: no raw data, PointerToRawData = 0, VirtualSize > 0 (the later sections
+    keep their file offsets: the file simply has a gap)"""
+    cand = [s for s in pe.sections if not any(s is k[0] for k in keep)]
+    if not cand:
+        return None
+    s = rng.choice(cand)
+    s.rs, s.prd, s.data = 0, 0, b""
+    s.vs = rng.choice([1, 4, 0x10, pe.file_align, max(s.vs, 1), pe.section_align])
+    s.name = b".bss"
+    return s
 
 
 def gen_c06(rng, tier):
@@ -403,6 +644,8 @@ def gen_c06(rng, tier):
                 w_ = rng.choice([1, 2, 4, 8])
                 s_.data = s_.data[:s_.rs - 2 * w_] + b"\xA5" * w_ + bytes(w_)    # one element, then the terminator in the last slot
                 flush.append((s_, w_))
+        if rng.random() < 0.35:
+            make_bss(rng, pe, flush)
         data = pe.build()
         if rng.random() < 0.3:
             adversarial_sections(rng, pe, len(data))
@@ -420,19 +663,33 @@ def gen_c06(rng, tier):
         for r in rvas:
             q.append(("derva_copy %s u32 0x%x", r)); q.append(("derva_cstr %s 0x%x", r)); q.append(("derva_into %s 8 0x%x", r))
             q.append(("derva_slice_s %s u16 0x%x 0", r)); q.append(("slice %s 0x%x 1 1", r))
+            for pr in slice_f_preds(rng, pe, r, 2, 1):
+                q.append(("derva_slice_f %%s u16 0x%%x %s" % pr, r))
             # the VA twins (same bytes through ImageBase + rva): sentinel arrays that end exactly where the
             # stored bytes end must read the same on the file and on the converted view
             va = (pe.image_base + r) & ((1 << pe.bits) - 1)
             q.append(("deref_copy %s u32 0x%x", va)); q.append(("deref_cstr %s 0x%x", va))
-            q.append(("deref_slice_s %%s %s 0x%%x 0" % rng.choice(["u8", "u16", "u32", "u64"]), va))
+            t_ = rng.choice(["u8", "u16", "u32", "u64"])
+            q.append(("deref_slice_s %%s %s 0x%%x 0" % t_, va))
+            for pr in slice_f_preds(rng, pe, r, int(t_[1:]) // 8, 1):
+                q.append(("deref_slice_f %%s %s 0x%%x %s" % (t_, pr), va))
         # sentinel-terminated arrays planted flush against the end of each section's stored bytes
         for s_, w_ in flush:
             q.append(("deref_slice_s %%s u%d 0x%%x 0" % (8 * w_), (pe.image_base + s_.va + s_.rs - 2 * w_) & ((1 << pe.bits) - 1)))
             q.append(("derva_slice_s %%s u%d 0x%%x 0" % (8 * w_), (s_.va + s_.rs - 2 * w_) & U32))
+            # the same two slots through a callable: stop on the 1st / 2nd call (inside), on the 3rd (one past the stored
+            # bytes: must fail on the file, may read on through the view), on the zero terminator (`ge:0` stops at once,
+            # `ge:0xA6…` never does)
+            for pr in ("count:1", "count:2", "count:3", "ge:0", "ge:0x%x" % int.from_bytes(b"\xA5" * w_, "little"), "ge:0x%x" % (int.from_bytes(b"\xA5" * w_, "little") + 1)):
+                q.append(("derva_slice_f %%s u%d 0x%%x %s" % (8 * w_, pr), (s_.va + s_.rs - 2 * w_) & U32))
+                q.append(("deref_slice_f %%s u%d 0x%%x %s" % (8 * w_, pr), (pe.image_base + s_.va + s_.rs - 2 * w_) & ((1 << pe.bits) - 1)))
+        # the bytes a section header describes: raw data on the file, the virtual extent on the converted view (a
+        # bss-style section — no raw data, PointerToRawData 0 — is VirtualSize zero bytes there, not a null error)
+        sb = ["secbytes %%s %d" % i for i in range(len(pe.sections) + 1)]
         case = [img_line(rng, data), "from_bytes " + kf, "to_view " + kf]
-        case += [fmt % (kf, r) for fmt, r in q]
+        case += [fmt % (kf, r) for fmt, r in q] + [o % kf for o in sb] + [o % "wf" for o in sb]
         case += ["img_to_view " + kf, "from_bytes " + kv]
-        case += [fmt % (kv, r) for fmt, r in q]
+        case += [fmt % (kv, r) for fmt, r in q] + [o % kv for o in sb] + [o % "wv" for o in sb]
         case += ["hdr " + kv, "to_file " + kv, "img_to_file " + kv, "from_bytes " + kf, "hdr " + kf]
         case += [fmt % (kf, r) for fmt, r in q]
         cases.append(case)
@@ -444,11 +701,112 @@ def gen_c06(rng, tier):
     return cases
 
 
+def _bits_of_file(data):
+    try:
+        e = struct.unpack_from("<I", data, 0x3C)[0]
+        m = struct.unpack_from("<H", data, e + 24)[0]
+    except struct.error:
+        return None
+    return {0x10B: 32, 0x20B: 64}.get(m)
+
+
+def _strip_hints(line):
+    """op line without the generator-side expectation tokens (`exp=` / `want=` / `tree=` / `canon=`)"""
+    return " ".join(w for w in line.split(" ") if not w.startswith(("exp=", "want=", "tree=", "canon=")))
+
+
+def dir_images(rng, tier):
+    """(file bytes, bits, [op templates with %s for the constructor]) for images that carry the directories
+    the property statement lists, built by the directory modules' own image builders (imported and called,
+    not copied)"""
+    from . import gen_exports, gen_imports, gen_dirs, gen_res, gen_rich, gen_pure
+    q = 1 if tier == "quick" else 30
+    out = []
+    # export directory (C08 builder): clean directories and singly mutated ones
+    for i in range(10 * q):
+        d = gen_exports.rand_dir(rng)
+        mut = gen_exports.mutations(rng, d) if rng.random() < 0.3 else None
+        b = gen_exports.build_image(rng, d, mut=mut)
+        out.append((b.data, b.bits, ["exports %s dump"]))
+    # import directory and IAT (C09 builder): the file case of every image
+    for i in range(10 * q):
+        for c in gen_imports.one_image(rng, 32 if i % 2 == 0 else 64, tier):
+            w = c[1].split(" ")
+            if c[0].startswith("img ") and w[0] == "from_bytes" and w[1] in ("f32", "f64"):
+                hx = c[0].split(" ")[3]
+                out.append((bytes.fromhex(hx) if hx != "-" else b"", int(w[1][1:]), ["imports %s dump", "iat %s dump"]))
+    # debug, TLS, load config, exception (C15 builder)
+    for i in range(10 * q):
+        bits = rng.choice([32, 64])
+        L, data, view, fns, vbase = gen_dirs.one_image(rng, bits, tier)
+        ops = ["debug %s dump", "tls %s dump", "loadcfg %s dump", "exc %s dump"]
+        ops += ["exc %%s lookup 0x%x" % pc for pc in gen_dirs.lookup_pcs(rng, fns, L)[:6]]
+        out.append((data, bits, ops))
+    # resources (C12 writers + image builder)
+    for i in range(6 * q):
+        if rng.random() < 0.6:
+            t, groups = gen_res.typical_tree(rng)
+        else:
+            t, groups = gen_res.rand_tree(rng, rng.choice([1, 2, 3])), []
+        dir_va = rng.choice([0x2000, 0x3000, 0x10000])
+        sec = gen_res.encode_canonical(t, dir_va) if rng.random() < 0.5 else gen_res.encode_classic(rng, t, dir_va)[0]
+        pe = gen_res.pe_with_rsrc(rng, sec, None, dir_va)
+        if rng.random() < 0.5:
+            pe.sections[1].vs = pe.sections[1].rs           # every stored byte mapped
+        ops = [_strip_hints(o) for o in gen_res.std_ops("res %s") + gen_res.helper_ops("res %s", groups)]
+        ops += [_strip_hints(o) for o in gen_res.lookup_ops(rng, t, "res %s", tier)[:12]]
+        out.append((pe.build(), pe.bits, ops))
+    # base relocations (C14 directory writer) in a section of their own
+    for i in range(6 * q):
+        sec = gen_pure._rand_dir(rng, gen_pure.RAW_SIZES, wf=rng.random() < 0.7)
+        sec = sec[:len(sec) & ~3] if rng.random() < 0.5 else sec
+        pe = gen_res.pe_with_rsrc(rng, sec or bytes(8), None, rng.choice([0x2000, 0x3000]))
+        pe.sections[1].name = b".reloc"
+        pe.dirs[5], pe.dirs[2] = (pe.dirs[2][0], len(sec)), (0, 0)
+        if rng.random() < 0.5:
+            pe.sections[1].vs = pe.sections[1].rs
+        out.append((pe.build(), pe.bits, ["relocs %s dump"]))
+    # Rich header (C16 builder): the built images of its whole-image generator
+    got = 0
+    for c in gen_rich.gen_rich_img(rng, "quick"):
+        hx = c[0].split(" ")[3]
+        data = bytes.fromhex(hx) if hx != "-" else b""
+        bits = _bits_of_file(data)
+        if bits and len(data) >= 0x200 and not c[1].startswith("rich wf"):
+            out.append((data, bits, ["rich %s"]))
+            got += 1
+            if got >= 6 * q:
+                break
+    # the repository's own binaries: every directory at once
+    allops = ["exports %s dump", "imports %s dump", "iat %s dump", "relocs %s dump", "res %s dump", "res %s fsck", "res %s fmt", "res %s manifest",
+              "res %s version", "res %s icons", "tls %s dump", "debug %s dump", "exc %s dump", "loadcfg %s dump", "rich %s"]
+    for fn, data in corpus_files():
+        bits = _bits_of_file(data)
+        if bits and fn.endswith(".dll"):
+            out.append((data, bits, allops))
+    return out
+
+
+def gen_c06_dirs(rng, tier):
+    """"every directory query gives equal results on both": the directory dumps on the FILE view, then —
+    after `img_to_view` — the same dumps on the VIEW over the converted buffer.  The file is placed
+    16-aligned like the converted buffer, so that an alignment verdict cannot differ between the two."""
+    cases = []
+    for data, bits, ops in dir_images(rng, tier):
+        kf, kv = "f%d" % bits, "v%d" % bits
+        case = [img_line(rng, data, 0), "from_bytes " + kf, "to_view " + kf]
+        case += [o % kf for o in ops]
+        case += ["img_to_view " + kf, "from_bytes " + kv]
+        case += [o % kv for o in ops]
+        cases.append(case)
+    return cases
+
+
 def gen_c07_boundaries(rng, tier):
     """Boundary enumeration per conjunct of the acceptance predicate: starting from an image in which
     every other condition holds comfortably (small SizeOfHeaders, large SizeOfImage), the buffer
     length is moved across each structure end by -4..+4 bytes, and each limit field across its limit."""
-    cases = []
+    cases = big_optional_cases(rng)
     combos = []
     for bits in (32, 64):
         for e in (0x40, 0x80, 0xC8):
@@ -482,7 +840,8 @@ def gen_c07_boundaries(rng, tier):
                 case = [img_line(rng, data, rng.choice([0, 4, 8, 12]), "e")]
                 for k in ("f32", "f64", "v32", "v64", "wf", "wv"):
                     case.append("from_bytes " + k)
-                case += ["hdr f%d" % bits, "hdrw wf", "hdr v%d" % bits]
+                case += ["hdr f%d" % bits, "hdrw wf", "hdr v%d" % bits, "hdrw2 wf", "hdrw2 f%d" % bits, "hdrw2 wv", "hdrw2 v%d" % bits,
+                         "hdr v%d@0x%x" % (bits, rng.choice([0, 0x1000, (1 << bits) - 1]))]
                 cases.append(case)
         # limit fields across their limits, buffer comfortably large
         for field, vals in (("num_sections", (95, 96, 97)), ("size_of_headers", None), ("e_lfanew_align", (e + 1, e + 2, e + 4)), ("size_of_optional", None)):
